@@ -1230,18 +1230,28 @@ fn make_script(p: Puller, zstd: bool, logical: &[u8], sizes: &[usize], fault: Op
     sc
 }
 
-/// What the zstd crate makes of the complete wire bytes (the opaque part, recorded for the model).
+/// What the zstd crate makes of the bytes the peer delivers before the stream ends or breaks (the
+/// opaque part, recorded for the model): an async consumer sees exactly those bytes and then a clean
+/// EOF, whether or not `last` came.
 fn dec_for(sc: &Script) -> Dec {
     if !sc.zstd {
         return Dec::Na;
     }
-    match sc.payload() {
-        None => Dec::Err,
-        Some(wb) => match zstd::decode_all(&wb[..]) {
-            Ok(b) if !b.is_empty() => Dec::Ok(b),
-            Ok(_) => Dec::Err, // (empty logical content is not generated for compressed scripts)
-            Err(_) => Dec::Err,
-        },
+    let mut wb = vec![];
+    for r in &sc.wire {
+        match r {
+            Resp::Chunk(b, last) => {
+                wb.extend_from_slice(b);
+                if *last {
+                    break;
+                }
+            }
+            _ => break,
+        }
+    }
+    match zstd::decode_all(&wb[..]) {
+        Ok(b) if !b.is_empty() => Dec::Ok(b),
+        _ => Dec::Err, // (empty logical content is not generated for compressed scripts)
     }
 }
 
